@@ -16,7 +16,7 @@ R6  loaded paths are a component of the reader's signature, with duplicates remo
 from __future__ import annotations
 
 import ast
-from typing import List, Optional, Set
+from typing import List, Optional, Set, Tuple, Any
 
 from ..cfg import cfg_of
 from ..flow import flow_of
@@ -759,7 +759,7 @@ def run(ctx: Ctx) -> None:
     rep.rule("C09.R28", "inside one source of a combined signature the keys are pairwise distinct: the key of a pair built in a comprehension names the position (`enumerate`) or "
                         "the key of the mapping that is iterated, never the element of a sequence that may hold it twice (two equal pairs cancel in the exclusive-or)")
     n28 = keys_distinct_within_source(ctx, "C09.R28")
-    rep.floor("C09.R28", n28, 3)
+    rep.floor("C09.R28", n28, 1)
     from .common import collected_is_used
     rep.rule("C09.R20", "what the analysis collects it hands on: the interactions found in the methods of a class, in the sub-calls and in the loads of a function are part of the record "
                         "the inspector returns (a local collection that is filled is also read)")
@@ -1040,19 +1040,29 @@ def keys_distinct_within_source(ctx: Ctx, rule: str) -> int:
                 return f"`{unparse(it, 40)}` is declared `{unparse(ann, 50)}`"
         return None
 
+    class _Gen:  # the loop form `for T in IT: xs.append((key, h))` read like the one generator of a comprehension
+        def __init__(self, target: ast.AST, it: ast.AST) -> None:
+            self.target, self.iter = target, it
+
+    uses_combiner = {f.module for f in prog.funcs.values() for x in f.own_nodes() if isinstance(x, ast.Call) and (prog.dotted(f, x.func) or "").endswith("dds_hash_commut")}
     for f in prog.funcs.values():
-        if f.module.name not in ("dds.introspect", "dds._introspect_indirect"):
+        if f.module not in uses_combiner or f.module.name == "dds.fun_args":
             continue
+        sites: List[Tuple[ast.AST, ast.AST, Any]] = []
         for c in f.own_nodes():
-            if not (isinstance(c, (ast.ListComp, ast.GeneratorExp)) and isinstance(c.elt, ast.Tuple) and len(c.elt.elts) == 2 and len(c.generators) == 1):
-                continue
-            k = c.elt.elts[0]
+            if isinstance(c, (ast.ListComp, ast.GeneratorExp)) and isinstance(c.elt, ast.Tuple) and len(c.elt.elts) == 2 and len(c.generators) == 1:
+                sites.append((c, c.elt.elts[0], c.generators[0]))
+            elif isinstance(c, ast.For) and not c.orelse:
+                for st in c.body:
+                    if isinstance(st, ast.Expr) and isinstance(st.value, ast.Call) and isinstance(st.value.func, ast.Attribute) and st.value.func.attr == "append" \
+                            and len(st.value.args) == 1 and isinstance(st.value.args[0], ast.Tuple) and len(st.value.args[0].elts) == 2:
+                        sites.append((c, st.value.args[0].elts[0], _Gen(c.target, c.iter)))
+        for c, k, gen in sites:
             if isinstance(k, ast.Call) and len(k.args) == 1 and not k.keywords:
                 k = k.args[0]
             if not isinstance(k, ast.JoinedStr):
                 continue
             varying = {x.id for v in k.values if isinstance(v, ast.FormattedValue) for x in ast.walk(v.value) if isinstance(x, ast.Name)}
-            gen = c.generators[0]
             it = gen.iter
             tn = target_names(gen.target)
             varying &= set(tn)
